@@ -2,7 +2,11 @@
     [weighted_sample_quantile], [normalize_weights], [compute_ess], [weighted_var] and
     [GMDistribution.pdf/logpdf/rvs].
 
-    Data values are exact rationals (every binary64 is one).  The argsort of the quantile is an
+    Data values are exact rationals (every binary64 is one).  Weight vectors are lists of such
+    numeric values ONLY: the model has no notion of the array's dtype or container (float64,
+    float32, int64/int32/uint8, bool, Python list) nor of the common magnitude of the weights, so a
+    result may depend on nothing but the numeric values (and, by the scale-invariance theorems,
+    only on their ratios).  The argsort of the quantile is an
     explicit oracle argument [index] (any permutation that sorts the values); [argsort] is one
     concrete stable choice used for execution.  Errors raised by the Python code (IndexError,
     ValueError, ZeroDivisionError) and non-finite results (nan/inf) are [None].
@@ -38,10 +42,10 @@ Definition compute_ess (ws : list Q) : option Q :=
 
 Definition wtot (xw : list (Q * Q)) : Q := qsum (map snd xw).
 
-(** on the rows [(x_i, w_i)]:
+(** the variance formula on rows [(x_i, w_i)] whose weights are already normalised:
     [V_1 = sum(w); V_2 = sum(w**2); xbar = average(x, weights=w);
      numerator = w.dot((x - xbar)**2); numerator / (V_1 - V_2 / V_1)]                         *)
-Definition wvar_rows (xw : list (Q * Q)) : option Q :=
+Definition wvar_core (xw : list (Q * Q)) : option Q :=
   let V1 := wtot xw in
   let V2 := qsum (map (fun p => sq (snd p)) xw) in
   if Qeq_bool V1 0 then None else                       (* np.average: ZeroDivisionError *)
@@ -50,6 +54,13 @@ Definition wvar_rows (xw : list (Q * Q)) : option Q :=
   let den := V1 - V2 / V1 in
   if Qeq_bool den 0 then None else                      (* x/0: nan or inf *)
   Some (Qred (numerator / den)).
+
+(** as coded since /repo 7d9ef43: [weights = asarray(weights, dtype=float); weights = weights / sum(weights)]
+    first (a zero sum makes every weight nan or inf and the result nan), then the formula above *)
+Definition wvar_rows (xw : list (Q * Q)) : option Q :=
+  let s := wtot xw in
+  if Qeq_bool s 0 then None
+  else wvar_core (map (fun p => (fst p, / s * snd p)) xw).
 
 Definition weighted_var (xs : list Q) (ws : option (list Q)) : option Q :=
   let w := match ws with Some w => w | None => ones xs end in
@@ -167,13 +178,22 @@ Fixpoint all2 {A B} (f : A -> B -> bool) (a : list A) (b : list B) : bool :=
 (** one call of the quantile: [alpha], result on [ws], result on [scale * ws] *)
 Record qrun := { r_alpha : Q; r_impl : option Q; r_impl_scaled : option Q }.
 
+(** one call of [normalize_weights] and [compute_ess] on the weights [w_scale * ws] (the product
+    is exact in the representation handed to the implementation); [w_tol]: relative tolerance of
+    the representation's arithmetic (1e-9 for binary64 and integers, 1e-5 for binary32) *)
+Record wrun := { w_scale : Q; w_tol : Q; w_norm : option (list Q); w_ess : option Q }.
+
 Inductive case :=
 | CQuant (xs : list Q) (ws : option (list Q)) (tol scale : Q) (index : list nat) (runs : list qrun)
 | CStat (xs : list Q) (ws : option (list Q)) (tol : Q)
         (i_norm : option (list Q)) (i_ess : option Q) (i_var : option Q)
 | CPdf (dens : list (list Q)) (ws : option (list Q)) (tol : Q) (i_pdf : option (list Q))
 | CRvs (size : nat) (box : option (list (Q * Q))) (batches : list (list (list Q)))
-       (i_out : option (list (list Q))).
+       (i_out : option (list (list Q)))
+  (** [normalize_weights] / [compute_ess] called several times on the numeric weights [ws], each
+      time in another representation (dtype, container) and/or multiplied by an exactly
+      representable common factor *)
+| CWeights (ws : list Q) (wruns : list wrun).
 
 (** -- quantile -- *)
 Definition rows (xs : list Q) (ws : option (list Q)) : list (Q * Q) :=
@@ -311,6 +331,37 @@ Definition ok_stat xs ws tol i_norm i_ess i_var : bool :=
       then match i_var with Some v => close tol (spec_var xw) v | None => false end
       else true).
 
+(** -- normalize_weights / compute_ess over representations and common scales -- *)
+Definition spec_norm (w : list Q) : list Q := map (fun v => v / qsum w) w.
+
+(** the definitions, at the weights [w], on one implementation answer *)
+Definition ok_norm_ess (w : list Q) (tol : Q) (i_norm : option (list Q)) (i_ess : option Q) : bool :=
+  match i_norm with
+  | Some nw => close tol 1 (qsum nw) && forallb (Qle_bool 0) nw && all2 (close tol) (spec_norm w) nw
+  | None => false
+  end
+  && match i_ess with Some e => close tol (spec_ess w) e | None => false end.
+
+Definition agree_norm (tol : Q) (m i : option (list Q)) : bool :=
+  match m, i with
+  | Some m, Some i => all2 (close tol) m i
+  | None, None => true
+  | _, _ => false
+  end.
+
+(** the model is run on the very numbers the implementation received ([w_scale * ws]) *)
+Definition agree_weights (w : list Q) (runs : list wrun) : bool :=
+  forallb (fun r => let w' := map (Qmult (w_scale r)) w in
+                    agree_norm (w_tol r) (normalize_weights w') (w_norm r)
+                    && opt_close (w_tol r) (compute_ess w') (w_ess r)) runs.
+
+(** every answer, whatever the representation and the (positive) common factor, must be the
+    normalised weights / the effective sample size of the UNSCALED [w] (scale invariance) *)
+Definition ok_weights (w : list Q) (runs : list wrun) : bool :=
+  if wf_stat_w w then
+    forallb (fun r => if Qltb 0 (w_scale r) then ok_norm_ess w (w_tol r) (w_norm r) (w_ess r) else true) runs
+  else true.
+
 (** -- GMDistribution.pdf -- *)
 Definition spec_pdf (dens w : list Q) : Q :=
   qsum (map (fun p => fst p / qsum w * snd p) (combine w dens)).
@@ -358,6 +409,7 @@ Definition agree (c : case) : bool :=
   | CStat xs ws tol n e v => agree_stat xs ws tol n e v
   | CPdf dens ws tol p => agree_pdf dens ws tol p
   | CRvs size box batches o => agree_rvs size box batches o
+  | CWeights w runs => agree_weights w runs
   end.
 
 Definition ok (c : case) : bool :=
@@ -366,4 +418,5 @@ Definition ok (c : case) : bool :=
   | CStat xs ws tol n e v => ok_stat xs ws tol n e v
   | CPdf dens ws tol p => ok_pdf dens ws tol p
   | CRvs size box batches o => ok_rvs size box o
+  | CWeights w runs => ok_weights w runs
   end.
